@@ -238,7 +238,8 @@ def run_callback_mutation(ctx):
                     for s in (rps.AGENT_EXECUTING, rps.DONE, rps.FAILED)]
     n = 0
     for scope in ('tmgr', 'task', 'both'):
-        for action in ('unregister-self', 'register-other', 'unregister-all'):
+        for action in ('unregister-self', 'register-other', 'unregister-all',
+                       'sys-exit'):
             for batch in itertools.product(notes, repeat=2):
                 n += 1
                 w   = World()
@@ -250,6 +251,10 @@ def run_callback_mutation(ctx):
                     if mutate.done:
                         return
                     mutate.done = True
+                    if action == 'sys-exit':
+                        # the documented idiom of the examples: leave on error
+                        import sys
+                        sys.exit(1)
                     if action == 'unregister-self':
                         if scope_ == 'tmgr':
                             w.tm.unregister_callback(mutate_tm)
@@ -270,7 +275,10 @@ def run_callback_mutation(ctx):
                 w.tm.register_callback(lambda t, s: obs.append(('#2', t.uid,
                                                                 s)))
                 w.log_all = list()
-                exc = w.apply(batch)
+                try:
+                    exc = w.apply(batch)
+                except BaseException as e:          # SystemExit and friends
+                    exc = e
                 _, ann = ref_batch({'t1': rps.NEW, 't2': rps.NEW}, batch)
                 want = sorted((u, s) for u, ss in ann.items() for s in ss)
                 got1 = sorted(x for x in obs if len(x) == 2)
